@@ -9,11 +9,16 @@ import (
 	"sort"
 	"strconv"
 	"sync"
+	"sync/atomic"
 	"time"
 
 	"github.com/deckhouse/deckhouse/pkg/log"
 	corev1 "k8s.io/api/core/v1"
 	metav1 "k8s.io/apimachinery/pkg/apis/meta/v1"
+	"k8s.io/apimachinery/pkg/runtime"
+	"k8s.io/apimachinery/pkg/watch"
+	dynfake "k8s.io/client-go/dynamic/fake"
+	clienttesting "k8s.io/client-go/testing"
 	kem "github.com/flant/shell-operator/pkg/kube_events_manager"
 	kemtypes "github.com/flant/shell-operator/pkg/kube_events_manager/types"
 	"pgregory.net/rapid"
@@ -31,6 +36,10 @@ type Op struct {
 	K     string `json:"k"` // start stop create modify delete settle nscreate nsdelete
 	// WindowNs (start): this labelled namespace is created between the monitor's CreateInformers and its Start
 	WindowNs string `json:"window_ns,omitempty"`
+	// UnlockNs (start of a label monitor): this labelled namespace appears after the start snapshot was taken, and the
+	// unlock (EnableKubeEventCb) runs while the monitor is creating the informers of that namespace: the harness
+	// triggers it from the monitor's own list request for the namespace
+	UnlockNs string `json:"unlock_ns,omitempty"`
 	Mon   int    `json:"mon,omitempty"`
 	Ns    string `json:"ns,omitempty"`
 	Name  string `json:"name,omitempty"`
@@ -87,11 +96,22 @@ func Gen(t *rapid.T) Case {
 			c.Initial = append(c.Initial, Op{K: "nscreate", Ns: "dyn1"}, Op{K: "create", Ns: "dyn1", Name: "a", State: 1})
 		}
 		st := Op{K: "start", Mon: nm - 1}
-		if rapid.Bool().Draw(t, "window") {
+		switch rapid.IntRange(0, 3).Draw(t, "window") {
+		case 0, 1:
 			st.WindowNs = "dyn2"
 			c.Initial = append(c.Initial, Op{K: "create", Ns: "dyn2", Name: "b", State: 2})
+		case 2:
+			st.UnlockNs = "dyn2"
+			if rapid.Bool().Draw(t, "unlockInitial") {
+				c.Initial = append(c.Initial, Op{K: "create", Ns: "dyn2", Name: "b", State: 2})
+			}
 		}
 		c.Ops = append(c.Ops, st)
+		if st.UnlockNs != "" {
+			o := dynObj("modify")
+			o.Ns = "dyn2"
+			c.Ops = append(c.Ops, o, Op{K: "settle"})
+		}
 		if rapid.Bool().Draw(t, "recreate") {
 			c.Ops = append(c.Ops, Op{K: "nsdelete", Ns: "dyn1"}, Op{K: "nscreate", Ns: "dyn1"}, dynObj("modify"), Op{K: "settle"})
 		}
@@ -178,12 +198,33 @@ func Run(c Case) (Result, error) {
 	kem.DefaultFactoryStore.Reset()
 	fc := kit.NewCluster(namespaces...)
 	cluster := map[string]int{}
+	// the fake API server does not replay changes made between a list request and the watch request that follows it:
+	// the harness therefore waits until the watch of a new namespace's informer is registered before it changes
+	// objects there (watchSeq counts the registered ConfigMap watches per namespace)
+	watchSeq := map[string]int{}
+	watchBase := map[string]int{}
+	var watchMu sync.Mutex
+	if fd, ok := fc.Client.Dynamic().(*dynfake.FakeDynamicClient); ok {
+		fd.PrependWatchReactor("configmaps", func(a clienttesting.Action) (bool, watch.Interface, error) {
+			w, err := fd.Tracker().Watch(a.GetResource(), a.GetNamespace())
+			if err != nil {
+				return false, nil, err
+			}
+			watchMu.Lock()
+			watchSeq[a.GetNamespace()]++
+			watchMu.Unlock()
+			return true, w, nil
+		})
+	}
 	liveDyn := map[string]bool{} // labelled namespaces that exist right now
 	var liveMu sync.Mutex         // guards liveDyn for the event callbacks
 	nsCreate := func(ns string) error {
 		if liveDyn[ns] {
 			return nil
 		}
+		watchMu.Lock()
+		watchBase[ns] = watchSeq[ns]
+		watchMu.Unlock()
 		_, err := fc.Client.CoreV1().Namespaces().Create(context.TODO(), &corev1.Namespace{ObjectMeta: metav1.ObjectMeta{Name: ns, Labels: map[string]string{"watch": "yes"}}}, metav1.CreateOptions{})
 		if err != nil {
 			return err
@@ -283,6 +324,11 @@ func Run(c Case) (Result, error) {
 					if vi.Dynamic && vi.Namespace == ns {
 						has = true
 					}
+				}
+				if has && liveDyn[ns] {
+					watchMu.Lock()
+					has = watchSeq[ns] > watchBase[ns]
+					watchMu.Unlock()
 				}
 				if has == liveDyn[ns] {
 					break
@@ -427,9 +473,51 @@ func Run(c Case) (Result, error) {
 				fmt.Sscanf(replaceSlashes(o.Metadata.ResourceId), "%s ConfigMap %s", &ns, &name)
 				r.view[ns+"/"+name] = stateOf(o)
 			}
-			m.EnableKubeEventCb()
+			unlockNs := ""
+			var inWindow atomic.Bool
+			if op.UnlockNs != "" && isLabel && !liveDyn[op.UnlockNs] {
+				if fd, ok := fc.Client.Dynamic().(*dynfake.FakeDynamicClient); ok {
+					unlockNs = op.UnlockNs
+					var once sync.Once
+					fd.PrependReactor("list", "configmaps", func(a clienttesting.Action) (bool, runtime.Object, error) {
+						if a.GetNamespace() == unlockNs {
+							once.Do(func() {
+								inWindow.Store(true)
+								done := make(chan struct{})
+								go func() {
+									m.EnableKubeEventCb()
+									close(done)
+								}()
+								select {
+								case <-done:
+								case <-time.After(2 * time.Second):
+								}
+							})
+						}
+						return false, nil, nil
+					})
+					r.mon = m
+					mons[op.Mon] = r
+					if err := nsCreate(unlockNs); err != nil {
+						return res, fmt.Errorf("harness: %v", err)
+					}
+					awaitInformers(where, unlockNs)
+					once.Do(func() {})
+					if inWindow.Load() {
+						res.Labels = append(res.Labels, "unlock-while-namespace-informers-are-created")
+						res.NonTrivial = true
+					}
+				}
+			}
+			if !inWindow.Load() {
+				m.EnableKubeEventCb()
+			}
 			r.mon = m
 			mons[op.Mon] = r
+			if unlockNs != "" {
+				refold(unlockNs)
+				check(where + " (namespace appeared while the binding was unlocked)")
+			}
 			if windowNs != "" {
 				awaitInformers(where, windowNs)
 				refold(windowNs)
